@@ -216,3 +216,60 @@ impl Dictionary {
         self.char_prop().num_categories()
     }
 }
+
+/// Hooks into the trainer tool chain.
+#[cfg(feature = "train")]
+pub mod train {
+    use crate::errors::Result;
+    use crate::trainer::TrainerConfig;
+
+    /// Parses a `rewrite.def` text and rewrites `features` with the rewriter of the given
+    /// section (0 = unigram, 1 = left, 2 = right).  `None` = no rule matched.
+    pub fn rewrite(rewrite_def: &str, section: u8, features: &[String]) -> Result<Option<Vec<String>>> {
+        let (u, l, r) = TrainerConfig::verif_parse_rewrite_config(rewrite_def.as_bytes())?;
+        let rw = match section {
+            0 => &u,
+            1 => &l,
+            _ => &r,
+        };
+        Ok(rw.rewrite(features))
+    }
+
+    /// Result of `expand`: per row the feature ids per template (`None` = no feature), and the
+    /// three final string -> id maps (unigram, left, right).
+    pub struct Expanded {
+        pub ids: Vec<Vec<Option<u32>>>,
+        pub unigram: Vec<(String, u32)>,
+        pub left: Vec<(String, u32)>,
+        pub right: Vec<(String, u32)>,
+    }
+
+    /// Parses a `feature.def` text and expands the templates of the given kind
+    /// (0 = unigram, 1 = left part of bigram templates, 2 = right part) for each row.
+    pub fn expand(feature_def: &str, rows: &[(u8, Vec<String>, u32)]) -> Result<Expanded> {
+        let mut fe = TrainerConfig::parse_feature_config(feature_def.as_bytes())?;
+        let mut ids = vec![];
+        for (kind, feats, cate) in rows {
+            ids.push(match kind {
+                0 => fe
+                    .extract_unigram_feature_ids(feats, *cate)
+                    .into_iter()
+                    .map(|x| Some(x.get()))
+                    .collect(),
+                1 => fe.extract_left_feature_ids(feats).into_iter().map(|x| x.map(|y| y.get())).collect(),
+                _ => fe.extract_right_feature_ids(feats).into_iter().map(|x| x.map(|y| y.get())).collect(),
+            });
+        }
+        let dump = |m: &hashbrown::HashMap<String, std::num::NonZeroU32>| -> Vec<(String, u32)> {
+            let mut v: Vec<(String, u32)> = m.iter().map(|(k, v)| (k.clone(), v.get())).collect();
+            v.sort_by_key(|x| x.1);
+            v
+        };
+        Ok(Expanded {
+            ids,
+            unigram: dump(&fe.unigram_feature_ids),
+            left: dump(&fe.left_feature_ids),
+            right: dump(&fe.right_feature_ids),
+        })
+    }
+}
